@@ -221,6 +221,11 @@ func (c *check) cleanup() {
 // died, the crash record of the plan in flight.
 func (c *check) runWorker(args []string, outFile string, timeout time.Duration, procs int) ([]*simplan.Result, *crash, error) {
 	full := append([]string{"-test.run", "^TestSim$", "-test.timeout", "0", "-sim.out", outFile}, args...)
+	if c.spec.Batch == 1 {
+		// one plan per process: every plan is the first of its process, in
+		// exploration, in the determinism self-test and in replay alike
+		full = append(full, "-sim.nowarm")
+	}
 	cmd := exec.Command(c.bin, full...)
 	cmd.Dir = c.tmp
 	cmd.Env = append(workerEnv(c.spec.Race, procs), "VERIF_TMP="+c.tmp)
@@ -575,13 +580,21 @@ func (c *check) runPart(a *agg, share float64, base uint64) partOutcome {
 	var crashViol []*crash
 	var crashTrouble []*crash
 	for _, cr := range a.crashes {
-		if c.spec.CrashIsViolation && cr.Exit != -1 && (strings.Contains(cr.Output, "DATA RACE") || strings.Contains(cr.Output, "panic:") || strings.Contains(cr.Output, "fatal error:")) {
+		if c.spec.CrashIsViolation && cr.Exit != -1 && !harnessOnlyRace(cr.Output) && (strings.Contains(cr.Output, "DATA RACE") || strings.Contains(cr.Output, "panic:") || strings.Contains(cr.Output, "fatal error:")) {
 			sig := crashSignature(cr.Output)
 			if kf, ok := matchKnown(known, c.spec.ID+"/crash", sig); ok {
 				knownHit = appendKnown(knownHit, kf)
 				continue
 			}
-			crashViol = append(crashViol, cr)
+			dup := false
+			for _, x := range crashViol {
+				if crashSignature(x.Output) == sig {
+					dup = true
+				}
+			}
+			if !dup {
+				crashViol = append(crashViol, cr)
+			}
 		} else if sig, ok := systemPanic(cr.Output); ok && cr.Exit != -1 {
 			// the peer process itself died on a goroutine of the code under test
 			if kf, ok := matchKnown(known, c.spec.ID+"/crash", sig); ok {
@@ -701,6 +714,31 @@ func firstDetail(r *simplan.Result, clause string) string {
 		}
 	}
 	return ""
+}
+
+// harnessOnlyRace: both accesses of the first race report are made directly by
+// simulator code (top frame under verif/): a bug of the harness, not of the
+// code under test.
+func harnessOnlyRace(out string) bool {
+	i := strings.Index(out, "WARNING: DATA RACE")
+	if i < 0 {
+		return false
+	}
+	lines := strings.Split(out[i:], "\n")
+	tops := []string{}
+	for j, l := range lines {
+		t := strings.TrimSpace(l)
+		if (strings.HasPrefix(t, "Write at") || strings.HasPrefix(t, "Read at") || strings.HasPrefix(t, "Previous write at") || strings.HasPrefix(t, "Previous read at") || strings.HasPrefix(t, "Atomic") || strings.HasPrefix(t, "Previous atomic")) && j+1 < len(lines) {
+			tops = append(tops, strings.TrimSpace(lines[j+1]))
+		}
+		if strings.HasPrefix(t, "Goroutine ") || len(tops) == 2 {
+			break
+		}
+	}
+	if len(tops) < 2 {
+		return false
+	}
+	return strings.HasPrefix(tops[0], "verif/") && strings.HasPrefix(tops[1], "verif/")
 }
 
 func crashSignature(out string) string {
